@@ -278,11 +278,11 @@ func DrawArgs(w *World, m *channel.StateMachine, pre *Pre) *Args {
 		a.Alloc = channel.Allocation{Assets: gen.Assets(1), Backends: gen.Backends(1), Balances: channel.Balances{gen.Bals(cols)}}
 	case OpUpdate, OpForceUpdate:
 		a.State = w.State()
-		a.State.ID = gen.ID()
+		a.State.ID = gen.IDLike(a.State.ID)
 		a.Actor = channel.Index(rt.NondetU16())
 	case OpCheckUpdate:
 		a.State = w.State()
-		a.State.ID = gen.ID()
+		a.State.ID = gen.IDLike(a.State.ID)
 		a.Actor = channel.Index(rt.NondetU16())
 		a.SigIdx = rt.Choice(w.N)
 		a.SigKind = rt.Choice(rt.Bound("sigKinds", NumSigKinds))
